@@ -15,12 +15,14 @@ __getstate__/__setstate__ and save_hdf5/from_hdf5 tables)
   is a difference, only the *values* of the three declared lattice caches are not compared),
   dense-level observations (to_ndarray, qflat, overlaps, MPO.is_equal), interface-level observations of every lattice
   met anywhere in the object (N_sites, Ls, bc_MPS, boundary_conditions, order, segment_first_last read as the segment
-  simulations read it, mps2lat_idx / lat2mps_idx, mps_sites, position, pairs) and test_sanity() of every loaded object,
+  simulations read it, mps2lat_idx / lat2mps_idx, mps_sites, position, pairs, and what the properties reciprocal_basis and
+  BZ return: shape and exact values) and test_sanity() of every loaded object,
   for HDF5 in every LegCharge format, pickle and copy.deepcopy.
   Segments are generated for every lattice class (lattice_segment:<class> x {finite 0..N-1, infinite enlarge=k,
   defaults, first>0, first=0 and last<N-1}), for models (model_segment), MPS and MPO (first = 0 included).
 """
 import os
+import re
 import sys
 
 import common
@@ -69,6 +71,13 @@ def classify_problem(method, p):
         return 'C17:Array.from_hdf5:flat-format-legs-lose-block-structure'
     if method.startswith('hdf5') and "attributes of MultiSpeciesLattice: lost ['N_species', 'simple_Lu', 'simple_lattice', 'species_names'], gained []" in p:
         return 'C17:MultiSpeciesLattice:hdf5-drops-species-attributes'
+    # (reached only when the UniformMPS inside can be loaded, i.e. once F17.3 is repaired)
+    if method.startswith('hdf5') and "attributes of MomentumMPS: lost ['dtype'], gained []" in p:
+        return 'C17:MomentumMPS.from_hdf5:dtype-not-set'
+    # Ladder.__init__ stores a reciprocal vector embedded in the 2D plotting space; Lattice.from_hdf5 (basis setter) resets the
+    # cache and the lazy recomputation for dim == 1 returns shape (1, 1)
+    if method.startswith('hdf5') and re.search(r"lattice observation reciprocal_basis of Ladder: \('array', \(1, 2\), .* became \('array', \(1, 1\), ", p):
+        return 'C17:Ladder.from_hdf5:reciprocal_basis-2d-embedding-lost'
     return None
 
 
